@@ -357,11 +357,25 @@ def add_twin_literals(doc: Dict[str, Any], rnd: random.Random) -> str:
     (generated nested-type names may collide)."""
     tag = _fresh(rnd, "")
     pn = rnd.choice(NAME_POOL)
-    lit = lambda: {"kind": "literal", "value": {"properties": [{"name": "a", "type": _b("string")}, {"name": "b", "type": _b("boolean"), "optional": True}]}}  # noqa: E731
-    lit2 = {"kind": "literal", "value": {"properties": [{"name": "a", "type": _b("uinteger")}]}}
-    doc["structures"].append({"name": f"SimTwinA{tag}", "properties": [{"name": pn, "type": lit()}]})
-    doc["structures"].append({"name": f"SimTwinB{tag}", "properties": [{"name": pn, "type": lit() if rnd.random() < 0.5 else lit2, "optional": True}]})
-    return f"add_twin_literals:{pn}"
+    def lit(k: int) -> Dict[str, Any]:
+        # k required properties with names from the pool (generated nested-type names are derived from
+        # property names; several required parts give a name-disambiguation step something to order)
+        names = rnd.sample(NAME_POOL, k)
+        props = [{"name": n, "type": _b(rnd.choice(["string", "uinteger", "boolean"]))} for n in names]
+        if rnd.random() < 0.5:
+            props.append({"name": "opt" + tag, "type": _b("boolean"), "optional": True})
+        return {"kind": "literal", "value": {"properties": props}}
+
+    same = lit(rnd.randint(1, 4))
+    n_twins = rnd.randint(2, 4)
+    for i in range(n_twins):
+        t = copy.deepcopy(same) if rnd.random() < 0.4 else lit(rnd.randint(1, 4))
+        p: Dict[str, Any] = {"name": pn, "type": t}
+        if rnd.random() < 0.4:
+            p["optional"] = True
+        extra = [{"name": "other" + tag, "type": lit(rnd.randint(2, 3))}] if rnd.random() < 0.4 else []
+        doc["structures"].append({"name": f"SimTwin{'ABCD'[i]}{tag}", "properties": [p] + extra})
+    return f"add_twin_literals:{pn}x{n_twins}"
 
 
 def add_twin_enums(doc: Dict[str, Any], rnd: random.Random) -> str:
@@ -422,12 +436,43 @@ SAFE_EDITS: List[Callable[[Dict[str, Any], random.Random], str]] = [
 ]
 
 
-def evolve(doc: Dict[str, Any], rnd: random.Random, n_edits: int) -> Tuple[Dict[str, Any], List[str]]:
+def add_and_message(doc: Dict[str, Any], rnd: random.Random) -> str:
+    """Intersection types in message positions.  Only the testdata plugin accepts `and` types on the
+    pinned tree (python/rust/dotnet raise), so this edit is offered to testdata histories only."""
+    tag = _fresh(rnd, "")
+    parts = []
+    for i in range(rnd.randint(2, 3)):
+        nm = f"SimAndPart{i}x{tag}"
+        doc["structures"].append({"name": nm, "properties": [{"name": n, "type": _b(rnd.choice(["string", "uinteger", "boolean"]))} for n in rnd.sample(NAME_POOL, rnd.randint(1, 3))]})
+        parts.append(_r(nm))
+    t = {"kind": "and", "items": parts}
+    if rnd.random() < 0.5:
+        doc["requests"].append({"method": f"sim/and{tag}", "typeName": f"SimAnd{tag}Request", "messageDirection": "both", "params": t, "result": rnd.choice([_b("null"), t])})
+    else:
+        doc["notifications"].append({"method": f"sim/and{tag}", "typeName": f"SimAnd{tag}Notification", "messageDirection": "both", "params": t})
+    return "add_and_message"
+
+
+PLUGIN_EDITS: Dict[str, List[Callable[[Dict[str, Any], random.Random], str]]] = {
+    "testdata": [add_and_message, add_and_message, add_and_message],
+}
+
+
+def evolve(doc: Dict[str, Any], rnd: random.Random, n_edits: int, plugin: Optional[str] = None) -> Tuple[Dict[str, Any], List[str]]:
     d = copy.deepcopy(doc)
     log = []
+    pool = SAFE_EDITS + PLUGIN_EDITS.get(plugin or "", [])
     for _ in range(n_edits):
-        log.append(rnd.choice(SAFE_EDITS)(d, rnd))
+        log.append(rnd.choice(pool)(d, rnd))
     return d, log
+
+
+def permuted(doc: Dict[str, Any], rnd: random.Random) -> Dict[str, Any]:
+    """The same declarations in another order (a different model with the same name sets)."""
+    d = copy.deepcopy(doc)
+    for sec in SECTIONS:
+        rnd.shuffle(d[sec])
+    return d
 
 
 def split(doc: Dict[str, Any], rnd: random.Random, k: int = 2) -> List[Dict[str, Any]]:
